@@ -2,4 +2,6 @@
 let table : (string * (Model.z list list -> Model.z list list)) list = [
   "ring", Model.ring_run;
   "ringspec", Model.ring_spec_run;
+  "array", Model.arr_run;
+  "arrayspec", Model.arr_spec_run;
 ]
